@@ -232,7 +232,7 @@ class Ctx:
             hdr += "".join(f"Require Import {r}.\n" for r in requires)
             hdr += "Set Printing Width 1000000.\nSet Printing Depth 1000000.\n"
             f.write_text(hdr + body)
-            rc, out, err = sh(["timeout", str(timeout), "coqc", "-Q", str(COQ), "Mici", str(f)], cwd=d, timeout=timeout + 30)
+            rc, out, err = sh(f"ulimit -s unlimited 2>/dev/null; exec timeout {timeout} coqc -Q {COQ} Mici {f}", cwd=d, timeout=timeout + 30)
             if rc != 0:
                 raise RuntimeError(f"coqc failed on generated cases: {err.strip()[-800:]}")
             return coq_eval_outputs(out)
